@@ -255,6 +255,10 @@ func (p *parser) readStructType() *Type {
 				}
 
 			} else {
+				if len(t.Fields) > 0 && t.Kind != TypeEnum {
+					// a bare name after typed fields: mixed list
+					return nil
+				}
 				t.Kind = TypeEnum
 				p.backup()
 			}
